@@ -180,6 +180,12 @@ def plan(spec):
                 kind = "harmonic"
             nb += 1
             name = "b%d" % nb
+            if kind in ("harmonic", "walls", "linear") and o["pick2"] % 7 == 6:
+                # a bias the library must refuse (unknown keyword, found after the bias has claimed its variables) and remove itself
+                doomed.add(name)
+                out.append({"op": "rejvar", "name": name, "why": "badkw",
+                            "cfg": bias_cfg(kind, name, [v[0] for v in vs], o, [v[1] for v in vs])[:-1] + "  noSuchKeyword 1\n}"})
+                continue
             live_b.append((name, kind, [v[0] for v in vs]))
             out.append({"op": "addbias", "name": name, "cfg": bias_cfg(kind, name, [v[0] for v in vs], o, [v[1] for v in vs]),
                         "vars": [v[0] for v in vs], "kind": kind})
